@@ -46,6 +46,13 @@ CHAR_PRED = {
     'is_ascii_digit': lambda c: c.isascii() and c.isdigit(),
     'is_ascii_punctuation': lambda c: c.isascii() and not c.isalnum() and not c.isspace() and c.isprintable(),
     'is_ascii': lambda c: c.isascii(),
+    'is_ascii_graphic': lambda c: 33 <= ord(c) <= 126,
+    'is_ascii_control': lambda c: ord(c) < 32 or ord(c) == 127,
+    'is_control': lambda c: ord(c) < 32 or 127 <= ord(c) < 160,
+    'is_ascii_uppercase': lambda c: 'A' <= c <= 'Z',
+    'is_ascii_lowercase': lambda c: 'a' <= c <= 'z',
+    'is_ascii_hexdigit': lambda c: c in '0123456789abcdefABCDEF',
+    'is_numeric': lambda c: c.isnumeric(),
 }
 
 EMPTY_STRING_CTORS = ('String::from("")', 'String::new()', '"".to_string()', 'String::default()', '"".into()',
